@@ -1,6 +1,7 @@
 package verifharness
 
 import (
+	"bufio"
 	"bytes"
 	"fmt"
 	"io"
@@ -50,6 +51,9 @@ type tProxy struct {
 	dmu sync.Mutex
 	del []deliveryEv
 }
+
+// direct reports whether users connect to frps itself (the PROXY header must name the user).
+func (p *tProxy) direct() bool { return p.typ == ptTCP || p.typ == ptHTTPS || p.typ == ptTCPMux }
 
 type tConn struct {
 	id         int
@@ -107,6 +111,11 @@ func worldTunnel(w *World) {
 	vhostHTTPS := 7443
 	if shareHTTPS {
 		vhostHTTPS = 7000
+		// documented constraint: with the https vhost on the bind port a plain TLS ClientHello belongs to
+		// the vhost muxer, so frp's own TLS must announce itself with the custom first byte
+		if tlsOn {
+			customByte = true
+		}
 	}
 	scfg := map[string]any{
 		"bindAddr": "10.0.0.1", "bindPort": 7000,
@@ -131,7 +140,14 @@ func worldTunnel(w *World) {
 	visitorsNeeded := false
 	var pcfgs []map[string]any
 	var vcfgs []map[string]any
-	totalBudget := 60000 * w.Net.Cfg().MSS
+	// payload budget from a step budget: each payload chunk of <= mss bytes costs one segment on the user
+	// link, one on the backend link and ceil((mss+overhead)/mss) on the framed/encrypted work link
+	mssF := float64(w.Net.Cfg().MSS)
+	stepBudget := 150000.0
+	if w.In.Tier == "thorough" {
+		stepBudget = 600000.0
+	}
+	totalBudget := int(stepBudget * mssF / (3 + 60/mssF))
 	if totalBudget > 6<<20 {
 		totalBudget = 6 << 20
 	}
@@ -307,7 +323,7 @@ func worldTunnel(w *World) {
 				case 1:
 					return 16 + cr.Intn(100)
 				case 2:
-					return 16 + cr.Intn(20000)
+					return 16 + cr.Intn(min(20000, per)+1)
 				case 3:
 					return 16 + cr.Intn(per/4+1)
 				default:
@@ -666,7 +682,7 @@ func (tw *tunnelWorld) writeStream(conn net.Conn, data []byte, c *tConn, side in
 	i := 0
 	k := 0
 	for i < len(data) {
-		n := 1 + r.Intn(c.chunkMax)
+		n := 1 + r.Intn(max(c.chunkMax, 1))
 		if i+n > len(data) {
 			n = len(data) - i
 		}
@@ -675,7 +691,7 @@ func (tw *tunnelWorld) writeStream(conn net.Conn, data []byte, c *tConn, side in
 		}
 		i += n
 		k++
-		if c.pauseEvery > 0 && k%c.pauseEvery == 0 {
+		if c.pauseEvery > 0 && k%c.pauseEvery == 0 && k/c.pauseEvery <= 40 {
 			time.Sleep(time.Duration(r.Range(1, 50)) * time.Millisecond)
 		}
 	}
@@ -742,23 +758,37 @@ func (tw *tunnelWorld) backendConn(p *tProxy, conn net.Conn) {
 	w := tw.w
 	defer conn.Close()
 	var pp *ppInfo
+	raw := conn
+	br := bufio.NewReaderSize(raw, 64*1024)
+	conn = &bufConn{Conn: raw, r: br}
 	if p.ppVer != "" {
-		var err error
-		conn.SetReadDeadline(time.Now().Add(120 * time.Second))
-		pp, err = readPP(conn)
-		conn.SetReadDeadline(time.Time{})
-		if err != nil {
-			if !w.In.Faults && err != io.EOF {
-				tw.violate("proxy-protocol", "header-unparsable", "proxy %s (%s): %v", p.name, p.ppVer, err)
+		mandatory := p.typ == ptTCP || p.typ == ptHTTPS || p.typ == ptTCPMux
+		present := mandatory
+		if !mandatory {
+			// proxies reached through a visitor may or may not carry the header: look before reading
+			raw.SetReadDeadline(time.Now().Add(tw.silentTimeout()))
+			pk, _ := br.Peek(12)
+			raw.SetReadDeadline(time.Time{})
+			present = bytes.HasPrefix(pk, []byte("PROXY ")) || bytes.Equal(pk, ppV2Sig)
+		}
+		if present {
+			var err error
+			raw.SetReadDeadline(time.Now().Add(120 * time.Second))
+			pp, err = readPP(conn)
+			raw.SetReadDeadline(time.Time{})
+			if err != nil {
+				if !w.In.Faults && err != io.EOF {
+					tw.violate("proxy-protocol", "header-unparsable", "proxy %s (%s): %v", p.name, p.ppVer, err)
+				}
+				return
 			}
-			return
-		}
-		want := 1
-		if p.ppVer == "v2" {
-			want = 2
-		}
-		if pp.version != want {
-			tw.violate("proxy-protocol", "wrong-version", "proxy %s wants %s, got v%d", p.name, p.ppVer, pp.version)
+			want := 1
+			if p.ppVer == "v2" {
+				want = 2
+			}
+			if pp.version != want {
+				tw.violate("proxy-protocol", "wrong-version", "proxy %s wants %s, got v%d", p.name, p.ppVer, pp.version)
+			}
 		}
 	}
 	// banner first (backend speaks first)
@@ -791,8 +821,9 @@ func (tw *tunnelWorld) backendConn(p *tProxy, conn net.Conn) {
 		// silent user (mode 3): the backend has finished writing (banner) and closes while the user only reads
 		var c *tConn
 		tw.tmu.Lock()
+		// silent connections carry no tag: tell them apart by the PROXY header when there is one
 		for _, o := range p.conns {
-			if o.mode == 3 && !o.bAccepted {
+			if o.mode == 3 && !o.bAccepted && (pp == nil || !p.direct() || pp.src == o.userLocal) {
 				c = o
 				o.bAccepted = true
 				break
@@ -800,10 +831,23 @@ func (tw *tunnelWorld) backendConn(p *tProxy, conn net.Conn) {
 		}
 		tw.tmu.Unlock()
 		if c == nil {
+			if pp != nil && p.direct() && !w.In.Faults {
+				tw.w.Check("C01.proxy-protocol-src")
+				known := false
+				for _, q := range tw.proxies {
+					for _, o := range q.conns {
+						if o.userLocal == pp.src {
+							known = true
+						}
+					}
+				}
+				if !known {
+					tw.violate("proxy-protocol", "wrong-source-address", "proxy %s: header names source %s, which is no user's address", p.name, pp.src)
+				}
+			}
 			return
 		}
 		defer close(c.bDone)
-		tw.checkPP(c, pp)
 		c.mu.Lock()
 		c.bClosedAt = w.Net.Now()
 		c.bEndAt = w.Net.Now()
@@ -928,3 +972,11 @@ func (tw *tunnelWorld) checkPP(c *tConn, pp *ppInfo) {
 		}
 	}
 }
+
+// bufConn reads through a bufio.Reader (so that a header can be peeked) and writes directly.
+type bufConn struct {
+	net.Conn
+	r *bufio.Reader
+}
+
+func (b *bufConn) Read(p []byte) (int, error) { return b.r.Read(p) }
